@@ -10,7 +10,11 @@ namespace LA.B64
 open LA.Gen.UuTables
 
 /-- `base64[c]`; `c` is a six-bit value by construction (`unsigned char >> 2`, …). -/
-def ch (c : Nat) : Nat := b64Alphabet.getD c 0
+def ch (c : Nat) : Nat :=
+  if c < 26 then c + 65 else if c < 52 then c + 71 else if c < 62 then c - 4 else if c = 62 then 43 else 47
+
+/-- The closed form above is the extracted table `base64[]` of the write filter. -/
+theorem ch_table : b64Alphabet = (List.range 64).map ch := by decide
 
 /-- The body of `la_b64_encode` (same bit slicing as `uu_encode`, `'='` padding). -/
 def triples : List Nat → List Nat
